@@ -326,12 +326,31 @@ func main() {
 			fh := &format.Header{MAC: h.MAC}
 			for _, s := range h.Stanzas {
 				s := s
-				fh.Recipients = append(fh.Recipients, &format.Stanza{Type: s.Type, Args: s.Args, Body: s.Body})
+				// argument slices with spare capacity, as produced by append
+				args := make([]string, len(s.Args), len(s.Args)+3)
+				copy(args, s.Args)
+				fh.Recipients = append(fh.Recipients, &format.Stanza{Type: s.Type, Args: args, Body: s.Body})
 			}
-			var out bytes.Buffer
+			var out, noMAC, again bytes.Buffer
+			// what Encrypt does: MarshalWithoutMAC (for the MAC), then Marshal; marshalling must not change the header
+			if err := fh.MarshalWithoutMAC(&noMAC); err != nil {
+				c.Fail("marshal-error", id, err.Error(), nil)
+				return
+			}
 			if err := fh.Marshal(&out); err != nil {
 				c.Fail("marshal-error", id, err.Error(), nil)
 				return
+			}
+			fh.Marshal(&again)
+			if !bytes.Equal(out.Bytes(), again.Bytes()) || !bytes.HasPrefix(out.Bytes(), noMAC.Bytes()) {
+				c.Fail("marshal-not-repeatable", id, "marshalling the same header twice gives different bytes (Marshal modifies the header)", map[string]interface{}{"first": ev.Clip(out.String(), 300), "second": ev.Clip(again.String(), 300)})
+				return
+			}
+			for i, s := range h.Stanzas {
+				if !s.Equal(refage.Stanza{Type: fh.Recipients[i].Type, Args: fh.Recipients[i].Args, Body: fh.Recipients[i].Body}) {
+					c.Fail("marshal-modifies-header", id, "Header fields changed by Marshal", nil)
+					return
+				}
 			}
 			want := refage.Marshal(h)
 			c.DistinctOnce(ev.Hash64(want))
